@@ -250,6 +250,12 @@ val digits_acc : char list -> z -> bool -> z option
 
 val parse_pyint : char list -> z option
 
+val int_space_codes : nat list
+
+val is_int_space : char -> bool
+
+val parse_int_raw : char list -> z option
+
 val z_to_string : z -> char list
 
 type label =
